@@ -42,11 +42,15 @@ Template(kd, f, g) ==
     [] kd = "binadd"   -> << L("newfile", 0, 0), L("index", 0, 0), L("binary", 0, f) >>
     [] kd = "cc"       -> << L("index", 0, 0), L("mmm", f, 0), L("ppp", f, 0) >>   \* diff --cc / --combined (merge)
     [] kd = "bare"     -> << >>
+    \* submodules: diff.submodule=log prints "Submodule <path> <a>..<b>:" and its "  > subject" lines instead of
+    \* a diff; the default (short) format is an ordinary diff whose hunk consists of two "Subproject commit" lines
+    [] kd = "sublog"   -> << >>
+    [] kd = "subshort" -> << L("index", 0, 0), L("mmm", f, 0), L("ppp", f, 0), L("hh", 0, 0), L("subm", 0, 0), L("subp", 0, 0) >>
 
 HasHunks(kd)  == kd \in {"mod", "add", "del", "renmod", "modemod", "cc"}
 TwoPaths(kd)  == kd \in {"rename", "renmod", "copy"}
 AllKinds == {"mod", "add", "addempty", "del", "rename", "renmod", "copy", "modeonly", "modemod", "bin",
-             "binadd", "bare", "cc"}
+             "binadd", "bare", "cc", "sublog", "subshort"}
 
 BodyClasses == {"minus", "plus", "zero"}
 
@@ -72,7 +76,7 @@ StartSection ==
   /\ Complete(gs) /\ ~gs.closed
   /\ \E kd \in Kinds, f \in Files, g \in Files :
        /\ (TwoPaths(kd) => f # g) /\ (~TwoPaths(kd) => f = g)
-       /\ Emit([c |-> "diff", f |-> f, g |-> g, kd |-> kd],
+       /\ Emit([c |-> IF kd = "sublog" THEN "sublog" ELSE "diff", f |-> f, g |-> g, kd |-> kd],
                [gs EXCEPT !.todo = Template(kd, f, g), !.kd = kd, !.nh = 0, !.nb = 0, !.last = "", !.pre = 0])
 
 HeaderLine ==
@@ -104,6 +108,10 @@ ConflictStep ==
      \/ gs.conf \in {"ours", "anc"} /\ Emit(L("m_theirs", 0, 0), [gs EXCEPT !.conf = "theirs", !.nc = 0])
      \/ gs.conf = "theirs" /\ Emit(L("m_end", 0, 0), [gs EXCEPT !.conf = "", !.nb = @ + 1, !.last = "zero"])
 
+SubLogLine ==    \* the "  > commit subject" lines of a submodule log
+  /\ gs.kd = "sublog" /\ gs.nb < MaxBody /\ ~gs.closed
+  /\ Emit(L("subc", 0, 0), [gs EXCEPT !.nb = @ + 1])
+
 Blank ==       \* the empty line `git log -p` prints after the last section of a commit
   /\ Preamble /\ Complete(gs) /\ gs.kd # "" /\ ~gs.closed
   /\ Emit(L("blank", 0, 0), [gs EXCEPT !.closed = TRUE])
@@ -116,5 +124,5 @@ Text ==        \* free text: commit message, log metadata, anything before/betwe
   /\ Preamble /\ gs.kd = ""
   /\ Emit(L("other", 0, 0), gs)
 
-GNext == StartSection \/ HeaderLine \/ HunkHeader \/ Body \/ NoNewline \/ ConflictStep \/ Blank \/ Commit \/ Text
+GNext == StartSection \/ HeaderLine \/ HunkHeader \/ Body \/ NoNewline \/ ConflictStep \/ SubLogLine \/ Blank \/ Commit \/ Text
 =============================================================================
